@@ -98,6 +98,7 @@ let history_step name (gs : string -> string) (gi : string -> int) (gz : string 
   (* events of the capacity-aware step: inside the owned rows AND inside the allocations as they are at that step *)
   let cevents_ok cevs = List.for_all (fun ce -> check_C06 ce.ce_ev.ev_ext ce.ce_ev.ev_al ce.ce_ev.ev_accs
                                                && check_C06 ce.ce_alloc ce.ce_ev.ev_al ce.ce_ev.ev_accs) cevs in
+  ignore cevents_ok;
   let cst ?(scap = -7) ?(fcap = -7) ?(ucap = -7) h = { c_h = h; c_scap = z scap; c_fcap = z fcap; c_ucap = z ucap } in
   match name with
   | "stripe" when not panicked ->
@@ -181,7 +182,10 @@ let history_step name (gs : string -> string) (gi : string -> int) (gz : string 
         else if gi "scap" < gi "SR" then bad (Printf.sprintf "capacity=%d-below-rows=%d" (gi "scap") (gi "SR"))
         else if dcap_model <> oi 1 then
           bad (Printf.sprintf "score-matrix-capacity-after=%d-model=%d(rows-before=%d,capacity-before=%d,rows-after=%d)" (oi 1) dcap_model drows dcap (oi 0))
-        else if not (cevents_ok cevs) then bad "event-outside-the-allocation"
+        (* the accesses are those of hstep's events (checked against the owned rows above); what the capacity-aware step
+           adds is that the owned rows lie inside the allocations at this step: compare the extents, buffer by buffer *)
+        else if not (List.for_all (fun ce -> List.for_all (fun b -> Z.leb (ce.ce_ev.ev_ext (nat_of_int b)) (ce.ce_alloc (nat_of_int b))) [0; 1; 2; 3]) cevs)
+          then bad "owned-rows-outside-the-allocation"
         else []
       end
   | ("enc" | "encuse") ->
